@@ -306,6 +306,10 @@ def jobs(tier, seed):
                 add('info/%s/cons=%s' % (tn, c), 'make_info', dict(tn=tn, name_idx=1, cons=[c], remap=False))
             add('info/%s/cons=lt+eq+lt/remap' % tn, 'make_info', dict(tn=tn, name_idx=2, cons=['lt', 'eq', 'lt'], remap=True))
             add('info/%s/cons=ne+ge+zero' % tn, 'make_info', dict(tn=tn, name_idx=0, cons=['ne', 'ge', 'zero'], remap=False))
+            if tier != 'quick':
+                import itertools as _it
+                for c1, c2 in _it.combinations(['eq', 'ne', 'lt', 'le', 'gt', 'ge'], 2):
+                    add('info/%s/cons=%s+%s/remap' % (tn, c1, c2), 'make_info', dict(tn=tn, name_idx=3, cons=[c1, c2, c1], remap=True))
         for how in ['copy()', 'ctor', 'pos', 'add0']:
             add('alias/%s/%s' % (tn, how), 'make_alias', dict(tn=tn, how=how))
     for sp in (False, True):
